@@ -266,6 +266,9 @@ def route_geff(tracks, wd):
     return probs
 
 
+RESAVES = {"n": 0}
+
+
 def route_internal(tracks, wd):
     from funtracks.import_export import load_tracks, save_tracks
 
@@ -274,11 +277,27 @@ def route_internal(tracks, wd):
     d = wd / "internal"
     if d.exists():
         shutil.rmtree(d)
+    resaved = False
     with warnings.catch_warnings():
         warnings.simplefilter("ignore")
         save_tracks(t, d)
+        # often the session goes on (undo / redo) and the tracks are saved again to the SAME
+        # directory: what is loaded afterwards must be the state of the second save
+        if len(a["nodes"]) % 3 != 0:
+            moved = False
+            try:
+                moved = t.undo() is True
+                if moved and len(a["nodes"]) % 2:
+                    moved = t.redo() is True and t.undo() is True
+            except Exception:
+                moved = False
+            if moved:
+                a = snapshot(t)
+                save_tracks(t, d)
+                resaved = True
         b_tracks = load_tracks(d, solution=True)
     probs = []
+    RESAVES["n"] += int(resaved)
     if set(b_tracks.features) != set(t.features):
         probs.append(("internal-registry", f"registry {sorted(t.features)} -> "
                       f"{sorted(b_tracks.features)}", "C14/internal/registry"))
@@ -384,13 +403,15 @@ def run_shard(spec):
                 break
     finally:
         shutil.rmtree(wd, ignore_errors=True)
+    acc["counters"]["internal-saved-again-after-undo"] = RESAVES["n"]
     return common.finish_acc(acc)
 
 
 def floors(tier):
     return {"states": 250, "states-after-editing": 120, "route-csv": 200,
             "route-csv-display": 200, "route-geff": 150, "route-internal": 250,
-            "states-longer-than-one-chunk": 10, "states-where-node-0-is-a-parent": 5}
+            "states-longer-than-one-chunk": 10, "states-where-node-0-is-a-parent": 5,
+            "internal-saved-again-after-undo": 40}
 
 
 def replay(doc):
